@@ -83,7 +83,8 @@ func (o *Oracle) judgePages(e *Exchange) {
 	kind := fmt.Sprintf("%s|%d", e.Link, e.Status)
 	o.res.cover("C20.A1|page|" + kind)
 	if len(js) > 0 {
-		o.violate(e, "C20.A1-structure-unchanged", fmt.Sprintf("page carries script-scheme attribute values: %v", js), "facet", "script-url")
+		// recorded, not asserted: the statement allows request-controlled text inside attribute values
+		o.res.probe("c20_script_scheme_attribute_value_seen")
 	}
 	if strings.Contains(sk, "!ERR") {
 		o.violate(e, "C20.A1-structure-unchanged", "page does not tokenize as HTML", "facet", "tokenizer")
